@@ -338,41 +338,66 @@ class ModelCompiler:
 
     @staticmethod
     def extract(model, focus):
+        """Returns a model holding the focused cells / defined names and
+        everything they depend on, directly or transitively, through cell
+        references, ranges and defined names. The given model is not changed.
+        """
         extracted_model = Model()
 
+        def add_defined_name(name):
+            defn = model.defined_names[name]
+            if isinstance(defn, xltypes.XLCell):
+                return [defn.address]
+            if isinstance(defn, xltypes.XLRange):
+                extracted_model.defined_names[name] = \
+                    extracted_model.ranges[defn.address_str] = \
+                    copy.deepcopy(defn)
+                return [addr for row in defn.cells for addr in row]
+            return []
+
+        # 1. The focus: cell addresses, or defined names standing for them.
+        pending = []
+        focused_names = []
         for address in focus:
             if isinstance(address, str) and address in model.cells:
-                extracted_model.cells[address] = copy.deepcopy(
-                    model.cells[address])
-
+                pending.append(address)
             elif isinstance(address, str) and address in model.defined_names:
+                focused_names.append(address)
+                pending.extend(add_defined_name(address))
 
-                extracted_model.defined_names[address] = defn = copy.deepcopy(
-                    model.defined_names[address])
+        # 2. Everything those cells depend on.
+        used_names = list(focused_names)
+        while pending:
+            address = pending.pop()
+            if address in extracted_model.cells \
+                    or address not in model.cells:
+                continue
+            cell = extracted_model.cells[address] = copy.deepcopy(
+                model.cells[address])
+            if cell.formula is None:
+                continue
+            extracted_model.formulae[address] = cell.formula
+            for term in cell.formula.terms:
+                name = term.split('!')[-1]
+                if term in model.ranges:
+                    extracted_model.ranges[term] = copy.deepcopy(
+                        model.ranges[term])
+                    pending.extend(
+                        addr
+                        for row in model.ranges[term].cells for addr in row)
+                elif term in model.cells:
+                    pending.append(term)
+                elif name in model.defined_names:
+                    used_names.append(name)
+                    pending.extend(add_defined_name(name))
 
-                if isinstance(defn, xltypes.XLCell):
-                    extracted_model.cells[defn.address] = copy.deepcopy(
-                        model.cells[defn.address])
-
-                elif isinstance(defn, xltypes.XLRange):
-                    for row in defn.cells:
-                        for column in row:
-                            extracted_model.cells[column] = copy.deepcopy(
-                                model.cells[column])
-
-        terms_to_copy = []
-        for addr, cell in extracted_model.cells.items():
-            if cell.formula is not None:
-                for term in cell.formula.terms:
-                    if (term in extracted_model.cells
-                            and cell.formula != model.cells[addr].formula):
-                        cell.formula = copy.deepcopy(model.cells[addr].formula)
-
-                    elif term not in extracted_model.cells:
-                        terms_to_copy.append(term)
-
-        for term in terms_to_copy:
-            extracted_model.cells[term] = copy.deepcopy(model.cells[term])
+        # 3. Defined names of single cells are bound to the copied cells.
+        for name in used_names:
+            defn = model.defined_names[name]
+            if isinstance(defn, xltypes.XLCell) \
+                    and defn.address in extracted_model.cells:
+                extracted_model.defined_names[name] = \
+                    extracted_model.cells[defn.address]
 
         extracted_model.build_code()
 
